@@ -31,6 +31,13 @@ MUT = [
  ("C16", "qkeras/qtools/quantized_operators/multiplier_impl.py", "    self.output.int_bits = self.input.int_bits + self.weights.int_bits", "    self.output.int_bits = max(self.input.int_bits, self.weights.int_bits)", "qbits_x_qbits"),
  ("C17", "qkeras/qtools/quantized_operators/accumulator_impl.py", "    self.log_add_ops = int(np.ceil(np.log2(add_ops)))", "    self.log_add_ops = int(np.floor(np.log2(add_ops)))", "qbits_rank2"),
  ("C17", "qkeras/qtools/quantized_operators/adder_impl.py", "    fractional_bits = max(fractional_bits1, fractional_bits2)", "    fractional_bits = min(fractional_bits1, fractional_bits2)", "qbits_plus_qbits"),
+ ("C13", "qkeras/utils.py", '  custom_objects["QGRU"] = QGRU\n', '', "class_QGRU"),
+ ("C13", "qkeras/utils.py", "  qmodel.set_weights(model.get_weights())\n", "", "clone_model"),
+ ("C13", "qkeras/qlayers.py", '        "kernel_quantizer": constraints.serialize(\n            self.kernel_quantizer_internal# Google internal code, commented out by copybara\n        ),\n        "bias_quantizer": constraints.serialize(\n            self.bias_quantizer_internal# Google internal code, commented out by copybara\n        ),\n        "kernel_initializer"', '        "bias_quantizer": constraints.serialize(\n            self.bias_quantizer_internal# Google internal code, commented out by copybara\n        ),\n        "kernel_initializer"', "QDense"),
+ ("C13", "qkeras/qnormalization.py", "        'mean_quantizer': constraints.serialize(\n            self.mean_quantizer_internal", "        'mean_quantizer': constraints.serialize(\n            self.variance_quantizer_internal", "QBatchNormalization"),
+ ("C18", "qkeras/qtools/generate_layer_data_type_map.py", "        kernel_shape = kernel.shape[:-2] + (1, 1)", "        kernel_shape = kernel.shape[:-3] + (1, 1, 1)", "QDepthwiseConv2D_qbits"),
+ ("C18", "qkeras/qtools/generate_layer_data_type_map.py", "        accumulator = bias_accumulator_instance.make_quantizer(\n            kernel_accumulator.output, bias_quantizer)", "        accumulator = kernel_accumulator", "QDense_qbits_x_qbits_bias-qbits"),
+ ("C18", "qkeras/qtools/quantized_operators/quantizer_impl.py", "    self.is_signed = quantizer.keep_negative\n", "    self.is_signed = 1\n", "QDense_qbits_x_qbits"),
 ]
 def main(sel=None):
   res = []
